@@ -1225,6 +1225,26 @@ def resource_leg(ctx: core.Ctx, maxlen: int, nrandom: int) -> None:
 # run / replay
 # ---------------------------------------------------------------------------------------------
 
+def unregistered_history_leg(ctx: core.Ctx, n_other: int) -> None:
+    """The same unregistered attribute/type text parsed in two fresh Contexts must give equal values
+    whatever happened in between -- in particular after the process has seen many other
+    unregistered names (history dimension of "parsed from the same text in different contexts")."""
+    texts = ['#vd.config<42 : i32>', '!vd.handle<i32>', '#vd.other<"x">', '[#vd.config<1>, !vd.handle<f32>]']
+    first = [parse_attr_fresh(t) for t in texts]
+    for i in range(n_other):
+        parse_attr_fresh(f"#vdx{i}.a{i}<{i}>" if i % 2 else f"!vdx{i}.t{i}<i{1 + i % 60}>")
+    second = [parse_attr_fresh(t) for t in texts]
+    for t, a, b in zip(texts, first, second):
+        ctx.ev()
+        ctx.nt(("unreg-history", t, n_other))
+        if not (a == b and b == a and hash(a) == hash(b)):
+            ctx.fail(UNREG, "same unregistered text parsed in two contexts is unequal after other unregistered names were created",
+                     {"kind": "unregistered_history", "text": t, "other_unregistered_names_between": n_other},
+                     f"`{t}` parsed in a fresh Context, then {n_other} other unregistered names, then `{t}` in another fresh Context: "
+                     f"== is {a == b}, hashes equal: {hash(a) == hash(b)}", str(a), str(b))
+    ctx.count("unregistered_history.other_names", n_other)
+
+
 def run(ctx: core.Ctx) -> None:
     ctx.lean()
     quick = ctx.tier == "quick"
@@ -1253,6 +1273,7 @@ def run(ctx: core.Ctx) -> None:
     flush()
     legacy_selftest(ctx)
     resource_leg(ctx, 4 if quick else 5, 100 if quick else 2000)
+    unregistered_history_leg(ctx, 400 if quick else 5000)
     for k in range(250 if quick else 6000):
         if ctx.time_left() < (50 if quick else 300):
             ctx.count("random_groups_skipped_for_time")
